@@ -18,7 +18,14 @@ for d in sorted(x for x in glob.glob(os.path.join(VERIF, "seeded", "C*")) if os.
     except Exception as exc:      # pylint: disable=broad-except
         out[sid] = {"error": repr(exc), "raw": r.stdout[-300:]}
     print(sid, out[sid], flush=True)
-with open(os.path.join(VERIF, "seeded", "REGRESSION.json"), "w") as f:
-    json.dump(out, f, indent=1)
+path = os.path.join(VERIF, "seeded", "REGRESSION.json")
+if pat and os.path.exists(path):
+    # a partial run updates the entries it re-ran
+    with open(path) as f:
+        merged = json.load(f)
+    merged.update(out)
+    out = merged
+with open(path, "w") as f:
+    json.dump(out, f, indent=1, sort_keys=True)
 missed = [k for k, v in out.items() if v.get("exit") != 1]
 print("NOT CAUGHT:", missed)
